@@ -68,6 +68,16 @@ def r1(ctx):
             for sbb, t_e, f_e, o in guards_on(bf, lambda o: o["k"] == "call" and re.search(r"Fn>::call$|Fn::call$", o["t"]["f"])):
                 te += t_e
             ok = bool(te) and all(bf.dominated_by_any(x, edges=te) for x in somes) and all(nx[0] not in bf.reachable(x) for x in somes)
+        if not ok:
+            # accepted idiom: guard.iter().find(|b| (b.condition)(t)) - lazy, first match in creation order
+            fd = list(bf.calls(re.compile(r"Iterator>::find$|^std::iter::Iterator::find$")))
+            okc = False
+            for bb, t in fd:
+                for cid in closure_args(bf, t):
+                    cb = ctx.w.bodies.get(cid)
+                    if cb and any(True for _ in cb.calls(re.compile(r"Fn>::call$|Fn::call$"))):
+                        okc = True
+            ok = len(it) == 1 and not ad and len(fd) == 1 and okc
         ctx.inst(R, "barrier:first-match-forward", ok, bf.span, "first matching barrier in creation order wins" if ok else
                  "BarrierRepo::barrier does not return the first match of a plain forward scan")
     ctx.floor(R, 3)
